@@ -133,6 +133,18 @@ def _norm_list(items, in_loop, at_function_end, void_fn):
                 new_if = {'kind': 'IfStmt', '_line': st.get('_line'), 'inner': [norm_cond(negate(st['inner'][0])), {'kind': 'CompoundStmt', '_line': st.get('_line'), 'inner': rest}]}
                 out.append(new_if)
                 return out
+        # N4b: in a void function, `if (c) { A; return; } B` at the end of the body is `if (c) { A } else { B }`
+        if _GUARDS[0] and k == 'IfStmt' and len(st['inner']) == 2 and i + 1 < len(items) and at_function_end and void_fn:
+            th = st['inner'][1]
+            titems = th.get('inner', []) if th.get('kind') == 'CompoundStmt' else [th]
+            if len(titems) >= 2 and titems[-1].get('kind') == 'ReturnStmt' and not titems[-1].get('inner') \
+                    and not any(x.get('kind') == 'ReturnStmt' for t_ in titems[:-1] for x in walk(t_)):
+                rest = _norm_list(items[i + 1:], in_loop, at_function_end, void_fn)
+                new_if = {'kind': 'IfStmt', '_line': st.get('_line'), 'inner': [st['inner'][0],
+                          {'kind': 'CompoundStmt', '_line': th.get('_line'), 'inner': list(titems[:-1])},
+                          {'kind': 'CompoundStmt', '_line': st.get('_line'), 'inner': rest}]}
+                out.append(new_if)
+                return out
         out.append(st)
         i += 1
     return out
